@@ -11,11 +11,12 @@
 (*   rt       render/recognise/read-back round trip of a state (C02)       *)
 (*   rt2      a bumped text is a legal current version           (C02)       *)
 (*   incr     old --flags,date--> out             (C05, C01, C14)          *)
+(*   gate     a run of test/update seen from outside (C01)                 *)
 (*   calinfo  cal_info(day) = nine fields         (C14, C02)               *)
 (*   weekpat  is_valid_week_pattern(P)            (C14)                    *)
 (*   mono     renderings of two consecutive days  (C14)                    *)
 (***************************************************************************)
-EXTENDS TraceBase, BVVersion, BVPep440
+EXTENDS TraceBase, BVResolve
 
 VARIABLE l
 TraceInit == l = 1
@@ -84,6 +85,19 @@ IncrVerdict(e) ==
   ELSE IF t # e.out THEN <<"incr:divergence", t>>
   ELSE Good
 
+\* one run of `bumpver test` / `bumpver update [--dry]` seen from outside (C01)
+\*  e.cfgver : config value (for `test`: the OLD argument)   e.tags : tags the VCS lists for the scope (texts)   e.scope
+\*  e.ignore : --ignore-vcs-tag     e.old : the start version the run logged (<<0>> if none)
+\*  e.new : announced version (<<0>> if none)   e.exit : exit code   e.changed : did any project file change
+GateVerdict(e) ==
+  LET start == IF e.ignore THEN e.cfgver ELSE ResolveCurrent(e.cfgver, e.tags, e.scope, e.P, e.today) IN
+  IF e.exit # 0 THEN (IF e.changed THEN <<"gate:failed-run-changed-files", 0>> ELSE Good)
+  ELSE IF e.new = None THEN <<"gate:exit0-without-version", 0>>
+  ELSE IF e.old # None /\ VerCmp(start, e.old) # 0 THEN <<"gate:start-version", start>>
+  ELSE IF ~IsValid(e.new, e.P, e.today) THEN <<"gate:announced-does-not-match-pattern", ParseVersion(e.new, e.P, e.today).why>>
+  ELSE IF VerCmp(start, e.new) # -1 THEN <<"gate:announced-not-greater", <<start, VerCmp(start, e.new)>> >>
+  ELSE Good
+
 CalVerdict(e) ==
   LET c == CalInfo(e.n) bad == {f \in CalFieldSet : c[f] # e.c[f]} IN
   IF bad = {} THEN Good ELSE <<"calinfo", [f \in bad |-> <<c[f], e.c[f]>>]>>
@@ -108,6 +122,7 @@ Verdict(e) ==
     [] e.ev = "rt"      -> RtVerdict(e)
     [] e.ev = "rt2"     -> Rt2Verdict(e)
     [] e.ev = "incr"    -> IncrVerdict(e)
+    [] e.ev = "gate"    -> GateVerdict(e)
     [] e.ev = "calinfo" -> CalVerdict(e)
     [] e.ev = "weekpat" -> WeekPatVerdict(e)
     [] e.ev = "mono"    -> MonoVerdict(e)
